@@ -13,13 +13,15 @@
 (*     insertCtx.Done are both ready, so the generator never makes both    *)
 (*     ready for a worker that is (or will be) in the select (that race is *)
 (*     explored by TLC on the full model and met by the recorded traces);  *)
+(*   - a cancelled worker in the select exits without any gate: its Exit   *)
+(*     step is scheduled before anything else (Quiet);                     *)
 (*   - the fake client turns a Do on a cancelled context into an error.    *)
 (* gs is the value GetState must return for every service and mode.        *)
 (***************************************************************************)
 EXTENDS WriterLifecycle
 
 VARIABLES gs,      \* what GetState must return
-          budget   \* [force, again, flushes, stops]: bounds on the steps that are always enabled (keeps random walks interesting)
+          budget   \* [force, again, flushes, stops, pace]: bounds on the steps that are always enabled (keeps random walks interesting)
 WdKindsOne == <<"spl">>
 rvars == <<vars, gs, budget>>
 
@@ -116,19 +118,24 @@ RWake(w) == Wake(w)
 RExit(w) == ~flush[w] /\ Exit(w)
 RForce(w, st) == wst[w] # st /\ ForceState(w, st)
 
-G == gs' = GsNow' /\ UNCHANGED budget
-Spend(f) == budget[f] > 0 /\ budget' = [budget EXCEPT ![f] = @ - 1] /\ gs' = GsNow'
+\* a cancelled worker that sits in the select leaves on its own, at once: until it has (ExitG), nothing else is scheduled
+Quiet == \A w \in WK : ~(loop[w] = "select" /\ cancelled[w])
+G == Quiet /\ gs' = GsNow' /\ UNCHANGED budget
+Spend(f) == Quiet /\ budget[f] > 0 /\ budget' = [budget EXCEPT ![f] = @ - 1] /\ gs' = GsNow'
 InitG(sv)      == RInit(sv) /\ G
 InitAgainG(sv) == RInitAgain(sv) /\ Spend("again")
 RunG(sv)       == RRun(sv) /\ G
 RunAgainG(sv)  == RRunAgain(sv) /\ Spend("again")
 StopG(sv)      == Cardinality({ r \in Reqs : rst[r] # "new" }) >= 2 /\ RStop(sv) /\ Spend("stops")
 PlanFlushG(sv) == RPlanFlush(sv) /\ Spend("flushes")
-RequestG(r, d, h, nd, u) == RRequest(r, d, h, nd, u) /\ G
+\* pushes are paced by the progress of the workers, so that some arrive while an INSERT is in flight
+Routed == Cardinality({ r \in Reqs : rst[r] # "new" })
+RequestG(r, d, h, nd, u) == Routed < 2 + budget["pace"] /\ RRequest(r, d, h, nd, u) /\ G
+Pace == Quiet /\ budget' = [budget EXCEPT !["pace"] = @ + 1] /\ gs' = GsNow'
 TimerFireG(w)  == RTimerFire(w) /\ G
 WakeG(w)       == RWake(w) /\ G
-ExitG(w)       == RExit(w) /\ G
-SwapG(w)       == RSwap(w) /\ G
+ExitG(w)       == RExit(w) /\ gs' = GsNow' /\ UNCHANGED budget
+SwapG(w)       == RSwap(w) /\ Pace
 DoReturnG(w, ok) == RDoReturn(w, ok) /\ G
 ForceG(w, st)  == wrun[w] /\ RForce(w, st) /\ Spend("force")
 
@@ -139,7 +146,7 @@ ReplayNext ==
     \/ \E w \in WK : \/ TimerFireG(w) \/ WakeG(w) \/ ExitG(w) \/ SwapG(w)
                      \/ \E ok \in BOOLEAN : DoReturnG(w, ok)
                      \/ \E st \in {"IDLE", "CLOSING"} : ForceG(w, st)
-ReplayInit == Init /\ gs = GsNow /\ budget = [force |-> 3, again |-> 2, flushes |-> 3, stops |-> 2]
+ReplayInit == Init /\ gs = GsNow /\ budget = [force |-> 3, again |-> 2, flushes |-> 3, stops |-> 2, pace |-> 0]
 ReplaySpec == ReplayInit /\ [][ReplayNext]_rvars
 
 \* every composite step is a sequence of steps of the full model: the invariants of the full model hold
